@@ -40,6 +40,8 @@ def run(ctx):
         nrel += rc.check_relocation(ctx, prog, fam)
     ctx.floor('R-RC.f relocating members', nrel, 3)
 
+    rc.check_discarded_decrement(ctx, prog, ('asl::Array', 'asl::HashMap', 'asl::Map', 'asl::Shared', 'asl::SharedCore', 'asl::SmartObject', 'asl::SmartObject_', 'asl::Stack', 'asl::Queue', 'asl::Set', 'asl::Dic'))
+
     check_atomic_lock(ctx, prog)
 
     # positive control: a deliberately broken handle class must be flagged by b, c, d and e
